@@ -99,6 +99,25 @@ fn contexts() -> Vec<(String, String)> {
         v.push((n.to_string(), format!("{}fn main() {{\n{}    let zz = {}.§;\n    ()\n}}\n", PRELUDE, LOCALS, recv)));
     }
     v.push(("bounded-type-parameter".into(), format!("{}fn gen[U: Tr](u: U) -> int32 {{\n    let zz = u.§;\n    0\n}}\nfn main() {{ () }}\n", PRELUDE)));
+    // a type parameter under several bounds: methods of disjoint names, one name declared by both traits (a
+    // call `u.sh()` is then ambiguous), a trait without self methods, the parameter of a method, a value of
+    // the parameter's type reached through a field / a call
+    let bounds = "trait Sh { fn sh(Self) -> string; fn only_sh(Self) -> int32; }\ntrait Db { fn sh(Self) -> string; fn only_db(Self, int32) -> int32; }\ntrait St { fn mk_st() -> int32; }\nimpl Sh for S { fn sh(self: S) -> string { \"s\" } fn only_sh(self: S) -> int32 { 1 } }\nimpl Db for S { fn sh(self: S) -> string { \"d\" } fn only_db(self: S, k: int32) -> int32 { k } }\nfn idg[Q](q: Q) -> Q { q }\n";
+    for (bn, header, recv) in [
+        ("two-traits-disjoint-names", "fn gen[U: Tr + Sh](u: U) -> int32", "u"),
+        ("two-traits-sharing-a-name", "fn gen[U: Sh + Db](u: U) -> int32", "u"),
+        ("two-traits-sharing-a-name-other-order", "fn gen[U: Db + Sh](u: U) -> int32", "u"),
+        ("three-traits", "fn gen[U: Tr + Sh + Db](u: U) -> int32", "u"),
+        ("second-parameter-bounded", "fn gen[V, U: Sh](v: V, u: U) -> int32", "u"),
+        ("first-parameter-unbounded", "fn gen[V, U: Sh](v: V, u: U) -> int32", "v"),
+        ("through-a-field", "fn gen[U: Sh + Db](b: Box[U]) -> int32", "b.v"),
+        ("through-a-generic-call", "fn gen[U: Sh + Db](u: U) -> int32", "idg(u)"),
+        ("in-a-closure", "fn gen[U: Sh + Db](u: U) -> int32", "CLOSURE"),
+    ] {
+        let body = if recv == "CLOSURE" { "    let c3 = |k: int32| {\n        let zz = u.§;\n        0\n    };\n    0\n".to_string() } else { format!("    let zz = {}.§;\n    0\n", recv) };
+        v.push((format!("type-parameter-under-bounds;{}", bn), format!("{}{}{} {{\n{}}}\nfn main() {{ () }}\n", PRELUDE, bounds, header, body)));
+    }
+    v.push(("type-parameter-under-bounds;method-parameter".into(), format!("{}{}impl W {{\n    fn probe[U: Sh + Db](self: W, u: U) -> int32 {{\n        let zz = u.§;\n        0\n    }}\n}}\nfn main() {{ () }}\n", PRELUDE, bounds)));
     v.push(("unbounded-type-parameter".into(), format!("{}fn gen[U](u: U) -> int32 {{\n    let zz = u.§;\n    0\n}}\nfn main() {{ () }}\n", PRELUDE)));
     v.push(("generic-struct-of-parameter".into(), format!("{}fn gen[U](u: Box[U]) -> int32 {{\n    let zz = u.§;\n    0\n}}\nfn main() {{ () }}\n", PRELUDE)));
     // an impl whose receiver pattern repeats its type parameter, asked about inside a generic function
@@ -249,7 +268,7 @@ impl Family for Completions {
         &["C20"]
     }
     fn rule(&self) -> &'static str {
-        "dot completion at `recv.` for 10 receivers of a two-parameter generic struct with impls whose pattern repeats the type parameter, inside generic functions whose parameter has the same / another name; for 33 receiver expressions in main (locals of struct / struct-with-struct-field / two instances of a generic struct / Ref / Vec / tuple / array / enum / generic enum / int32 / string / dyn / Ref of a generic instance / nested generic instance / closure / unit; fields, tuple projections, call and method-call results, ref_get / vec_get / array_get results, a parenthesised receiver, a literal) + 12 other binding contexts (bounded and unbounded type parameter, generic struct of a parameter, closure parameter, pattern variables, self in an inherent and in a generic method, function parameters of struct and Ref type, a shadowed local, a local redefined later); `Ns::` completion for 10 single-file namespaces (enum, generic enum, struct with / without methods, generic struct, trait, int32, string, the own package, an unknown name) and 9 namespaces of a 4-package project (imported package, its enum / struct / trait, a package only reachable through the import, one of its enums, a package present on disk but not imported, the own package, a prefix of a package name); 8 cursors where the path is not an expression (a parameter type and a let annotation naming the own / an imported package, a pattern naming an enum / a generic enum / an imported enum, a cursor inside a middle segment of a path); oracle: the request returns without panic and every offered item, inserted at the cursor (methods with synthesised arguments, variants with synthesised payloads, types in a parameter position, traits in a bound), type-checks; where arguments cannot be synthesised only resolution errors count. non-trivial = cursors at which at least one item was offered; distinct = distinct (cursor, item)"
+        "dot completion at `recv.` for 10 receivers of a two-parameter generic struct with impls whose pattern repeats the type parameter, inside generic functions whose parameter has the same / another name; for 33 receiver expressions in main (locals of struct / struct-with-struct-field / two instances of a generic struct / Ref / Vec / tuple / array / enum / generic enum / int32 / string / dyn / Ref of a generic instance / nested generic instance / closure / unit; fields, tuple projections, call and method-call results, ref_get / vec_get / array_get results, a parenthesised receiver, a literal) + 10 type parameters under several bounds (disjoint method names, one name declared by two traits in either order, three traits, a second / an unbounded first parameter, the value reached through a field / a generic call / inside a closure, a method's own parameter) + 12 other binding contexts (bounded and unbounded type parameter, generic struct of a parameter, closure parameter, pattern variables, self in an inherent and in a generic method, function parameters of struct and Ref type, a shadowed local, a local redefined later); `Ns::` completion for 10 single-file namespaces (enum, generic enum, struct with / without methods, generic struct, trait, int32, string, the own package, an unknown name) and 9 namespaces of a 4-package project (imported package, its enum / struct / trait, a package only reachable through the import, one of its enums, a package present on disk but not imported, the own package, a prefix of a package name); 8 cursors where the path is not an expression (a parameter type and a let annotation naming the own / an imported package, a pattern naming an enum / a generic enum / an imported enum, a cursor inside a middle segment of a path); oracle: the request returns without panic and every offered item, inserted at the cursor (methods with synthesised arguments, variants with synthesised payloads, types in a parameter position, traits in a bound), type-checks; where arguments cannot be synthesised only resolution errors count. non-trivial = cursors at which at least one item was offered; distinct = distinct (cursor, item)"
     }
     fn cases(&self, _tier: Tier) -> Box<dyn Iterator<Item = Value> + '_> {
         let mut v = Vec::new();
